@@ -8,9 +8,9 @@
      - lines whose wrapping is itself the defect fit in the width and are single lines (ReST :type/:rtype
        lines, every numpydoc parameter line, the :returns: line of the argparse docstring; for the last two
        a multi-line prose is already misread when NOT wrapped, and wrapping joins it);
-     - the ":param name:" header fits in the width; no wrapped default sentence whose value has a blank,
-       no wrapped :returns: line with a default sentence at all (the return prose is searched for its
-       default before the lines are re-joined).
+     - the ":param name:" header fits in the width; no wrapped default sentence in the :returns: line or in the
+       :param line of a parameter without a type (their prose is searched for the default before the wrapped
+       lines are re-joined; typed parameters are re-joined first and are fine).
    The complement of the guard is the list of finding classes below. *)
 From Coq Require Import List Ascii Bool Arith ZArith.
 From Coq Require String.
@@ -53,6 +53,17 @@ Definition clean_edges (r : str) : Prop :=
 Definition C18_fill_at (w : nat) (s r : str) : Prop :=
   lines_le w r /\ words r = words s /\ clean_edges r.
 
+(* the fragment on which Fill.fill answers, as a boolean: positive width, no tab, no hyphen at which the
+   splitter of textwrap may break, no word (and no run of blanks) longer than the width *)
+Definition fill_guard (w : nat) (s : str) : bool :=
+  Nat.ltb 0 w && negb (mem_c tabch s) && negb (risky_hyphen None s)
+  && forallb (fun c => Nat.leb (List.length c) w) (chunks (replace_ws s)).
+
+(* a class of inputs inside the guard, described without reference to the model's internals: words without
+   whitespace or hyphen, each no longer than the width, separated by single blanks *)
+Definition plain_word (w : nat) (u : str) : bool :=
+  nonempty u && forallb (fun c => negb (tw_space c) && negb (ascii_eqb c (ch 45))) u && Nat.leb (List.length u) w.
+
 (* what docstring_parsers._set_name_and_type does to a prose block when word_wrap is on *)
 Definition rejoin (t : str) : str := join [sp] (map strip (split_nl t)).
 
@@ -94,8 +105,7 @@ Inductive c18_class : Type :=
 | K18_type_line           (* a ReST :type/:rtype line is wrapped: newline + indent stay inside the type *)
 | K18_numpydoc_cont       (* a numpydoc parameter line is wrapped: continuation lines are flush left *)
 | K18_argparse_returns    (* the :returns: line of the argparse docstring is wrapped: only its first line is read *)
-| K18_default_wrapped.    (* a default sentence is wrapped: inside the value, or anywhere for the return entry
-                             and for a parameter without a :type line *)
+| K18_default_wrapped.    (* a default sentence is wrapped in the return entry or in a parameter without a :type line *)
 
 Definition class_name18 (k : c18_class) : str :=
   match k with
@@ -176,12 +186,9 @@ Definition flat_len (s : str) : nat := List.length s.
 Definition has_long_word (w : nat) (s : str) : bool :=
   existsb (fun c => negb (is_space_chunk c) && Nat.ltb w (List.length c)) (chunks (replace_ws s)).
 
-(* a default sentence whose value text has an inner blank; for a fragile entry: any default sentence *)
-Definition default_sentence_fragile (is_ret : bool) (line : str) : bool :=
-  match location_within casefold line default_announces with
-  | Some (_, e, _) => is_ret || existsb tw_space (strip_by tw_space (skipn e line))
-  | None => false
-  end.
+(* a default sentence in the line of a fragile entry (typed parameters are re-joined before the search) *)
+Definition default_sentence_fragile (fragile : bool) (line : str) : bool :=
+  fragile && match location_within casefold line default_announces with Some _ => true | None => false end.
 
 Definition finding_class_C18 (w : nat) (e : emitter) (i : ir) : option c18_class :=
   let pc := pieces_of e i in
